@@ -473,7 +473,7 @@ impl AlgoStrategy for ActStrategy {
                     let price = state.instruments.instrument_index(&inst).data.price().unwrap_or(Decimal::from(100));
                     opens.push(OrderRequestOpen {
                         key: OrderKey {
-                            exchange: ExchangeIndex(0),
+                            exchange: ExchangeIndex(if act.inst >= 2 { 1 } else { 0 }),
                             instrument: inst,
                             strategy: self.id.clone(),
                             cid: ClientOrderId::new(cid_of(self.run, id)),
@@ -609,11 +609,16 @@ impl BacktestMarketData for GatedMarketData {
 // ------------------------------------------------------------------------------------------
 // world
 // ------------------------------------------------------------------------------------------
-fn instruments() -> IndexedInstruments {
-    IndexedInstruments::builder()
+fn instruments(untraded_exchange: bool) -> IndexedInstruments {
+    let b = IndexedInstruments::builder()
         .add_instrument(Instrument::spot(EXCHANGE, "binance_spot_btc_usdt", "BTCUSDT", Underlying::new("btc", "usdt"), None))
-        .add_instrument(Instrument::spot(EXCHANGE, "binance_spot_eth_usdt", "ETHUSDT", Underlying::new("eth", "usdt"), None))
-        .build()
+        .add_instrument(Instrument::spot(EXCHANGE, "binance_spot_eth_usdt", "ETHUSDT", Underlying::new("eth", "usdt"), None));
+    if untraded_exchange {
+        // instrument index 2 on an exchange that is tracked but has no execution link (probe only)
+        b.add_instrument(Instrument::spot(ExchangeId::Kraken, "kraken_spot_btc_usdt", "XBT/USDT", Underlying::new("btc", "usdt"), None)).build()
+    } else {
+        b.build()
+    }
 }
 
 fn mock_config(latency_ms: u64) -> MockExecutionConfig {
@@ -816,7 +821,7 @@ fn run_scenario(scn: &Value, trace: &mut Out, results: &mut Out, totals: &mut Va
     let gated = mode == "gated";
 
     let events = Arc::new(dataset(n, data_seed, &recs));
-    let instruments = instruments();
+    let instruments = instruments(scn["untraded_exchange"].as_bool().unwrap_or(false));
     let engine_state: State = EngineState::builder(&instruments, RecGlobal::default(), RecInst::default)
         .time_engine_start(time(3600))
         .trading_state(TradingState::Enabled)
@@ -920,7 +925,8 @@ fn run_scenario(scn: &Value, trace: &mut Out, results: &mut Out, totals: &mut Va
         let summary = summaries.get(r);
         let id_ok = summary.map(|s| s.id.as_str() == format!("{r}")).unwrap_or(false);
         let sum_json = summary.map(project_summary).unwrap_or(json!("none"));
-        let sumok = status == "ok" && id_ok && sum_json == sk.digest;
+        // (a run whose strategy was never called has shown no engine state to compare with)
+        let sumok = status == "ok" && id_ok && (sk.calls == 0 || sum_json == sk.digest);
         if status == "ok" {
             let mut end = line("End");
             let mut sent: Vec<i64> = sk.lines.last().map(|l| l["sent"].as_array().unwrap().iter().map(|x| x.as_i64().unwrap()).collect()).unwrap_or_default();
